@@ -5081,3 +5081,43 @@ def flw17(ctx):
     if n < 7:
         raise AnchorMissing("FLW-17: %d arms moving last_pos to the start of a later syllable found (expected >= 7)" % n)
     return r
+
+
+# ---------------------------------------------------------------- TAB-14: a test of one sub-node's presence bit guards that sub-node only
+
+def tab14(ctx):
+    """The 16-bit place word has four presence bits (LAB/COR/DOR/PHR_BIT) and four payload fields. In every method of
+    `Place`, a branch taken on the presence bit of ONE sub-node touches that sub-node's constants only (the same three-letter
+    family, or the all-presence mask): `if *d & DOR_BIT == 0 { *d &= !PHR_ASD }` -- a copy-pasted line -- clears the
+    pharyngeal features of every segment that has no dorsal node."""
+    r = RuleResult("TAB-14", "Place methods: a branch conditioned on one sub-node's presence bit uses only that sub-node's constants", floor=14)
+    lib = ctx.lib
+    PRES = {"LAB_BIT": "LAB", "COR_BIT": "COR", "DOR_BIT": "DOR", "PHR_BIT": "PHR"}
+    n = 0
+
+    def consts(node):
+        return [y["path"].rsplit("::", 1)[-1] for y in hirq.walk(node) if y["e"] == "path" and (y.get("path") or "").startswith("asca::place::Place::") and (y.get("rk") or "").startswith("AssocConst")]
+    for b in lib.bodies:
+        if b.in_test_mod() or not b.hir or b.kind == "closure" or not b.path.startswith("asca::place::Place::"):
+            continue
+        n += 1
+        bad = []
+        for x in hirq.walk(b.hir["body"]):
+            if x["e"] != "if":
+                continue
+            fam = {PRES[c] for c in consts(x["cond"]) if c in PRES}
+            if len(fam) != 1:
+                continue
+            f = list(fam)[0]
+            used = consts(x["then"]) + (consts(x["else"]) if x.get("else") is not None else [])
+            other = sorted({c for c in used if c[:3] in ("LAB", "COR", "DOR", "PHR") and c[:3] != f})
+            if other:
+                bad.append((x, f, other))
+        short = b.path.rsplit("::", 1)[-1]
+        r.inst("Place::%s: presence tests guard their own sub-node" % short, fn_loc(b), "ok" if not bad else "report")
+        for x, f, other in bad[:1]:
+            r.report("TAB-14|%s|%s" % (short, f), fn_loc(b, x.get("ln")), b.path,
+                     "a branch taken on the %s presence bit uses %s: the payload of another sub-node is edited depending on whether THIS one is present -- e.g. the pharyngeal features (ATR/RTR) of every segment without a dorsal node are cleared, so a stress-only rule turns `tˤ` into an unspellable segment" % (f, ", ".join(other)))
+    if n < 14:
+        raise AnchorMissing("TAB-14: %d methods of Place examined (expected >= 14)" % n)
+    return r
